@@ -183,3 +183,270 @@ fn c03_canary() {
     let b = any_board();
     assert!(b.piece_on(any_square()) != Some(Piece::Queen));
 }
+
+// ------------------------------------------------------------------------------------------ make_move
+
+pub(crate) fn any_promo() -> Option<Piece> {
+    let k: u8 = kani::any();
+    kani::assume(k < 7);
+    if k == 6 {
+        None
+    } else {
+        Some(piece_of(k as usize))
+    }
+}
+pub(crate) fn any_move() -> ChessMove {
+    ChessMove::new(any_square(), any_square(), any_promo())
+}
+pub(crate) fn to_mv(m: ChessMove) -> sp::Mv {
+    sp::Mv { src: m.get_source().to_int(), dst: m.get_dest().to_int(), promo: m.get_promotion().map(|p| p.to_index()) }
+}
+/// precondition of move application, symbolic opponent king: occupancy invariant, en-passant state consistent,
+/// `m` obeys the movement rules (castling attack clauses not needed here), the destination is not the enemy king
+pub(crate) fn pre_move() -> (Board, sp::Pos, ChessMove, sp::Mv) {
+    let b = any_board();
+    let pos = to_pos(&b);
+    kani::assume(sp::s_ep_consistent(&pos));
+    let m = any_move();
+    let mv = to_mv(m);
+    kani::assume(sp::s_pseudo_geom(&pos, &mv));
+    kani::assume(mv.dst != pos.king_sq(1 - pos.stm));
+    (b, pos, m, mv)
+}
+
+/// C02 postcondition, placement part: pieces, colours, combined, side, rights, en-passant upper bound, monotone material
+pub(crate) fn check_placement(pos: &sp::Pos, mv: &sp::Mv, r: &Board) {
+    let want = sp::s_apply(pos, mv);
+    let rp = to_pos(r);
+    // moved / promoted piece on the destination, captured man (incl. en passant) gone, rook jumped
+    assert!(rp.pieces[0] == want.pieces[0] && rp.pieces[1] == want.pieces[1] && rp.pieces[2] == want.pieces[2]);
+    assert!(rp.pieces[3] == want.pieces[3] && rp.pieces[4] == want.pieces[4] && rp.pieces[5] == want.pieces[5]);
+    assert!(rp.colors[0] == want.colors[0] && rp.colors[1] == want.colors[1]);
+    assert!(r.combined.0 == want.occ());
+    // side to move flipped
+    assert!(rp.stm == 1 - pos.stm);
+    // castle rights shrink exactly by the home squares left / captured on
+    assert!(rp.rights[0] == want.rights[0] && rp.rights[1] == want.rights[1]);
+    // en passant recorded ONLY after a double push that lands beside an enemy pawn
+    let dbl = pos.piece_at(mv.src) == Some(sp::PAWN) && (sp::rank_of(mv.src) - sp::rank_of(mv.dst)).abs() == 2;
+    let d = sp::bit(mv.dst);
+    let beside = (((d << 1) & sp::NOT_A) | ((d >> 1) & sp::NOT_H)) & want.pieces[sp::PAWN] & want.colors[want.stm];
+    if let Some(e) = rp.ep {
+        assert!(dbl && e == mv.dst && beside != 0);
+    }
+    // material and rights never grow (C05), stated structurally (no cardinality reasoning needed):
+    // the opponent's men and pawns only disappear; the mover's men are the old ones with the source square(s)
+    // replaced by as many destination squares (1, or 2 when castling); the mover's pawns gain at most the
+    // destination square and then lose the source square.  |A - x + y| = |A| for x in A, y not in A.
+    let me = pos.stm;
+    let them = 1 - me;
+    assert!(rp.colors[them] & !pos.colors[them] == 0);
+    assert!((rp.pieces[0] & rp.colors[them]) & !(pos.pieces[0] & pos.colors[them]) == 0);
+    let gained = rp.colors[me] & !pos.colors[me];
+    let lost = pos.colors[me] & !rp.colors[me];
+    let s = sp::bit(mv.src);
+    if sp::s_is_castle(pos, mv) {
+        assert!(gained & d != 0 && lost & s != 0 && (gained & !d).count_ones() == 1 && (lost & !s).count_ones() == 1);
+    } else {
+        assert!(gained == d && lost == s);
+    }
+    let pg = (rp.pieces[0] & rp.colors[me]) & !(pos.pieces[0] & pos.colors[me]);
+    let pl = (pos.pieces[0] & pos.colors[me]) & !(rp.pieces[0] & rp.colors[me]);
+    assert!(pg == 0 || (pg == d && pl == s));
+    assert!(rp.rights[0] & !pos.rights[0] == 0 && rp.rights[1] & !pos.rights[1] == 0);
+}
+
+/// en-passant lower bound: whenever the pushed pawn can LEGALLY be captured en passant, the opportunity is recorded
+pub(crate) fn check_ep_lower(pos: &sp::Pos, mv: &sp::Mv, r: &Board) {
+    let want = sp::s_apply(pos, mv);
+    let rp = to_pos(r);
+    let d = sp::bit(mv.dst);
+    let beside = (((d << 1) & sp::NOT_A) | ((d >> 1) & sp::NOT_H)) & want.pieces[sp::PAWN] & want.colors[want.stm];
+    if rp.ep.is_none() && beside != 0 {
+        let mut q = want;
+        q.ep = Some(mv.dst);
+        let behind = if pos.stm == sp::WHITE { mv.dst - 8 } else { mv.dst + 8 };
+        if mv.dst & 7 != 0 && sp::has(beside, mv.dst - 1) {
+            assert!(!sp::s_legal(&q, &sp::Mv { src: mv.dst - 1, dst: behind, promo: None }));
+        }
+        if mv.dst & 7 != 7 && sp::has(beside, mv.dst + 1) {
+            assert!(!sp::s_legal(&q, &sp::Mv { src: mv.dst + 1, dst: behind, promo: None }));
+        }
+    }
+}
+
+fn set_probe() -> (usize, u8, usize, u64) {
+    let (pp, ps, pc, pk): (usize, u8, usize, u64) = (kani::any(), kani::any(), kani::any(), kani::any());
+    kani::assume(pp < 6 && ps < 64 && pc < 2);
+    unsafe {
+        crate::vstubs::PROBE = (pp, ps, pc, pk);
+    }
+    (pp, ps, pc, pk)
+}
+/// hash coordinate check: with every key except the probed one set to 0, the hash field must change by the probed
+/// key exactly when the probed (piece,square,colour) fact changed between the two positions
+fn check_hash_coordinate(h0: u64, pos: &sp::Pos, r: &Board, probe: (usize, u8, usize, u64)) {
+    let (pp, ps, pc, pk) = probe;
+    let rp = to_pos(r);
+    let before = pos.pieces[pp] & pos.colors[pc] & sp::bit(ps) != 0;
+    let after = rp.pieces[pp] & rp.colors[pc] & sp::bit(ps) != 0;
+    assert!(r.hash == h0 ^ (if before != after { pk } else { 0 }));
+}
+
+// @ob id=O2.1a props=C02,C05 tier=quick kind=proof weight=light fn="Board::make_move_new" desc="SYMBOLIC opponent king (all 64 squares at once), every placement (occupancy invariant, consistent en-passant state) and every move obeying the movement rules: result pieces/colours/combined/side/castle-rights equal the rule-prescribed successor s_apply; en passant recorded only after a double push beside an enemy pawn; men, pawns and rights never grow; &self untouched. Frame assumption of this quick form: the slider scan (fed by get_*_rays, here replaced by EMPTY so the loop vanishes) writes only checkers/pinned — discharged by O2.1a-havoc in the thorough tier"
+#[kani::proof]
+#[kani::unwind(9)]
+#[kani::stub(crate::magic::get_bishop_rays, crate::vstubs::no_rays)]
+#[kani::stub(crate::magic::get_rook_rays, crate::vstubs::no_rays)]
+#[kani::stub(crate::magic::get_knight_moves, crate::vstubs::knight_moves_cf)]
+#[kani::stub(crate::magic::get_pawn_attacks, crate::vstubs::pawn_attacks_cf)]
+fn c02_mmn_placement() {
+    let (b, pos, m, mv) = pre_move();
+    let b0 = b;
+    let r = b.make_move_new(m);
+    assert!(b == b0);
+    check_placement(&pos, &mv, &r);
+    kani::cover!(sp::s_is_castle(&pos, &mv));
+    kani::cover!(sp::s_is_ep_capture(&pos, &mv));
+    kani::cover!(mv.promo.is_some());
+}
+
+// @ob id=O2.1a-havoc props=C02,C05 tier=thorough kind=proof weight=heavy fn="Board::make_move_new" desc="same contract as O2.1a with get_rook_rays/get_bishop_rays abstracted by HAVOC (any set of <= 14 squares, a property O16.3s proves of the real tables): sound for every king square, discharges the frame assumption of the quick form"
+#[kani::proof]
+#[kani::unwind(30)]
+#[kani::stub(crate::magic::between, crate::vstubs::between_cf)]
+#[kani::stub(crate::magic::get_bishop_rays, crate::vstubs::havoc_rays)]
+#[kani::stub(crate::magic::get_rook_rays, crate::vstubs::havoc_rays)]
+#[kani::stub(crate::magic::get_knight_moves, crate::vstubs::knight_moves_cf)]
+#[kani::stub(crate::magic::get_pawn_attacks, crate::vstubs::pawn_attacks_cf)]
+fn c02_mmn_placement_havoc() {
+    let (b, pos, m, mv) = pre_move();
+    let r = b.make_move_new(m);
+    check_placement(&pos, &mv, &r);
+}
+
+// @ob id=O2.1h props=C02,C08 tier=quick kind=proof weight=light fn="Board::make_move_new" desc="hash, coordinate-wise: for EVERY key coordinate (piece,square,colour) — all other keys zeroed by a probe stand-in for Zobrist::piece — the hash field changes by that key exactly when that (piece,square,colour) fact differs between source and result position; i.e. the incremental hash stays the XOR of the keys of the placement (path independence), for every placement, king square and rule-obeying move. Same frame assumption as O2.1a"
+#[kani::proof]
+#[kani::unwind(9)]
+#[kani::stub(crate::magic::get_bishop_rays, crate::vstubs::no_rays)]
+#[kani::stub(crate::magic::get_rook_rays, crate::vstubs::no_rays)]
+#[kani::stub(crate::magic::get_knight_moves, crate::vstubs::knight_moves_cf)]
+#[kani::stub(crate::magic::get_pawn_attacks, crate::vstubs::pawn_attacks_cf)]
+#[kani::stub(crate::zobrist::Zobrist::piece, crate::vstubs::zobrist_probe)]
+fn c02_mmn_hash() {
+    let (b, pos, m, _mv) = pre_move();
+    let probe = set_probe();
+    let r = b.make_move_new(m);
+    check_hash_coordinate(b.hash, &pos, &r, probe);
+}
+
+// @ob id=O2.1e props=C02,C06 tier=quick kind=proof weight=light fn="Board::make_move_new,Board::set_ep" desc="en-passant lower bound: after any double pawn push, if a pawn of the side now to move could LEGALLY capture the pushed pawn en passant (own king not exposed afterwards — flood-fill attack spec), the opportunity is recorded; symbolic king, all placements. Same frame assumption as O2.1a"
+#[kani::proof]
+#[kani::unwind(9)]
+#[kani::stub(crate::magic::get_bishop_rays, crate::vstubs::no_rays)]
+#[kani::stub(crate::magic::get_rook_rays, crate::vstubs::no_rays)]
+#[kani::stub(crate::magic::get_knight_moves, crate::vstubs::knight_moves_cf)]
+#[kani::stub(crate::magic::get_pawn_attacks, crate::vstubs::pawn_attacks_cf)]
+fn c02_mmn_ep_lower() {
+    let (b, pos, m, mv) = pre_move();
+    kani::assume(pos.piece_at(mv.src) == Some(sp::PAWN) && (sp::rank_of(mv.src) - sp::rank_of(mv.dst)).abs() == 2);
+    let r = b.make_move_new(m);
+    check_ep_lower(&pos, &mv, &r);
+    kani::cover!(r.en_passant.is_some());
+}
+
+/// precondition for the check/pin clause, opponent king (colour kc) fixed on ksq: as pre_move, plus no knight or
+/// pawn of the mover already attacks that king (the opponent is not in check before the move)
+pub(crate) fn pre_move_king(kc: usize, ksq: u8) -> (Board, sp::Pos, ChessMove, sp::Mv) {
+    let b = any_board_king(kc, ksq);
+    let me = 1 - kc;
+    kani::assume(b.side_to_move.to_index() == me);
+    let pos = to_pos(&b);
+    kani::assume(sp::s_ep_consistent(&pos));
+    let m = any_move();
+    let mv = to_mv(m);
+    kani::assume(sp::s_pseudo_geom(&pos, &mv));
+    kani::assume(mv.dst != ksq);
+    kani::assume(sp::s_knight(ksq) & pos.pieces[1] & pos.colors[me] == 0);
+    kani::assume(sp::s_pawn_att(ksq, kc) & pos.pieces[0] & pos.colors[me] == 0);
+    (b, pos, m, mv)
+}
+
+// @ob id=O2.1b props=C02,C03 tier=quick kind=proof gen=king qsel=8 unwind=30 weight=light stubs=geom fn="Board::make_move_new" desc="opponent king fixed on the instance square: for every placement and rule-obeying move, the incrementally computed checkers/pinned of the result equal the from-scratch eight-ray-walk spec of the result position (C03: check and pin information matches the position after every move)"
+fn c02_mmn_checkpin(kc: usize, ksq: u8) {
+    let (b, _pos, m, _mv) = pre_move_king(kc, ksq);
+    let r = b.make_move_new(m);
+    let (ch, pin) = sp::s_check_pin(&to_pos(&r));
+    assert!(r.checkers.0 == ch);
+    assert!(r.pinned.0 == pin);
+    kani::cover!(ch != 0);
+    kani::cover!(pin != 0);
+}
+
+// @ob id=O2.2a props=C02 tier=quick kind=proof weight=light fn="Board::make_move" desc="second entry point, ANY prior content of the output board: same placement/side/rights/en-passant/material contract as O2.1a (symbolic king); &self untouched"
+#[kani::proof]
+#[kani::unwind(9)]
+#[kani::stub(crate::magic::get_bishop_rays, crate::vstubs::no_rays)]
+#[kani::stub(crate::magic::get_rook_rays, crate::vstubs::no_rays)]
+#[kani::stub(crate::magic::get_knight_moves, crate::vstubs::knight_moves_cf)]
+#[kani::stub(crate::magic::get_pawn_attacks, crate::vstubs::pawn_attacks_cf)]
+fn c02_mm_placement() {
+    let (b, pos, m, mv) = pre_move();
+    let b0 = b;
+    let mut out = any_raw_board();
+    b.make_move(m, &mut out);
+    assert!(b == b0);
+    check_placement(&pos, &mv, &out);
+}
+
+// @ob id=O2.2h props=C02,C08 tier=quick kind=proof weight=light fn="Board::make_move" desc="second entry point: hash coordinate contract as O2.1h, any prior output board"
+#[kani::proof]
+#[kani::unwind(9)]
+#[kani::stub(crate::magic::get_bishop_rays, crate::vstubs::no_rays)]
+#[kani::stub(crate::magic::get_rook_rays, crate::vstubs::no_rays)]
+#[kani::stub(crate::magic::get_knight_moves, crate::vstubs::knight_moves_cf)]
+#[kani::stub(crate::magic::get_pawn_attacks, crate::vstubs::pawn_attacks_cf)]
+#[kani::stub(crate::zobrist::Zobrist::piece, crate::vstubs::zobrist_probe)]
+fn c02_mm_hash() {
+    let (b, pos, m, _mv) = pre_move();
+    let probe = set_probe();
+    let mut out = any_raw_board();
+    b.make_move(m, &mut out);
+    check_hash_coordinate(b.hash, &pos, &out, probe);
+}
+
+// @ob id=O2.2e props=C02 tier=quick kind=proof weight=light fn="Board::make_move,Board::make_move_new" desc="both entry points agree on the en-passant field EXACTLY (the band of O2.1a/O2.1e leaves freedom; equality of results needs the same choice), symbolic king, relational on the real code, any prior output board"
+#[kani::proof]
+#[kani::unwind(9)]
+#[kani::stub(crate::magic::get_bishop_rays, crate::vstubs::no_rays)]
+#[kani::stub(crate::magic::get_rook_rays, crate::vstubs::no_rays)]
+#[kani::stub(crate::magic::get_knight_moves, crate::vstubs::knight_moves_cf)]
+#[kani::stub(crate::magic::get_pawn_attacks, crate::vstubs::pawn_attacks_cf)]
+fn c02_mm_same_ep() {
+    let (b, _pos, m, _mv) = pre_move();
+    let mut out = any_raw_board();
+    b.make_move(m, &mut out);
+    let r = b.make_move_new(m);
+    assert!(out.en_passant == r.en_passant);
+}
+
+// @ob id=O2.2b props=C02,C03 tier=quick kind=proof gen=king qsel=8 unwind=30 weight=light stubs=geom fn="Board::make_move" desc="second entry point, opponent king fixed: checkers/pinned of the output board equal the from-scratch spec of the output position, any prior output board. Together with O2.2a/h/e and O2.1a/h/b: both entry points produce == results"
+fn c02_mm_checkpin(kc: usize, ksq: u8) {
+    let (b, _pos, m, _mv) = pre_move_king(kc, ksq);
+    let mut out = any_raw_board();
+    b.make_move(m, &mut out);
+    let (ch, pin) = sp::s_check_pin(&to_pos(&out));
+    assert!(out.checkers.0 == ch);
+    assert!(out.pinned.0 == pin);
+}
+
+// @ob id=O2.canary props=C02 tier=quick kind=canary fn="Board::make_move_new" desc="deliberately false: a move never changes the castle rights — must FAIL"
+#[kani::proof]
+#[kani::unwind(9)]
+#[kani::stub(crate::magic::get_bishop_rays, crate::vstubs::no_rays)]
+#[kani::stub(crate::magic::get_rook_rays, crate::vstubs::no_rays)]
+fn c02_canary() {
+    let (b, _pos, m, _mv) = pre_move();
+    let r = b.make_move_new(m);
+    assert!(r.castle_rights == b.castle_rights);
+}
